@@ -12,18 +12,18 @@ import (
 )
 
 type Env struct {
-	f       *FnCtx
-	pkg     string
-	heap    *Heap
-	old     *Heap
-	vars    map[string]Val
-	results []Val
-	bound   map[string]Val
-	depth   int
-	recName string
-	noInst  bool
-	recSym  string
-	entryVars map[string]Val
+	f          *FnCtx
+	pkg        string
+	heap       *Heap
+	old        *Heap
+	vars       map[string]Val
+	results    []Val
+	bound      map[string]Val
+	depth      int
+	recName    string
+	noInst     bool
+	recSym     string
+	entryVars  map[string]Val
 	atCallSite bool
 }
 
@@ -752,7 +752,15 @@ func (e *Env) evalCall(n *ECall) (Val, error) {
 		}
 		o := e.with(f.lastLockHeap)
 		if e.entryVars != nil {
-			o.vars = e.entryVars
+			// parameters denote their entry values; locals (single-assignment values) stay visible
+			nv := map[string]Val{}
+			for k, v := range e.vars {
+				nv[k] = v
+			}
+			for k, v := range e.entryVars {
+				nv[k] = v
+			}
+			o.vars = nv
 		}
 		return o.eval(n.Args[0])
 	}
@@ -806,6 +814,12 @@ func (e *Env) evalCall(n *ECall) (Val, error) {
 	case "int", "int64":
 		a := args[0]
 		if a.K == KInt {
+			// the conversion fixes the Go type (it matters when the value is boxed: asany(int64(x)))
+			if id.Name == "int64" {
+				a.T = types.Typ[types.Int64]
+			} else {
+				a.T = types.Typ[types.Int]
+			}
 			return a, nil
 		}
 		return Val{}, fmt.Errorf("int() of non-integer: use trunc")
